@@ -69,7 +69,7 @@ fn into_value_type_constants__declared_types() {
 /// The dynamic side of the same statement for the scalar wrappers: the value
 /// produced has the declared TYPE (symbolic leaves).
 #[kani::proof]
-#[kani::unwind(4)]
+#[kani::unwind(18)]
 fn into_value__scalar_value_has_declared_type() {
     let i: i64 = kani::any();
     let b: bool = kani::any();
